@@ -366,6 +366,7 @@ def primitives(interp):
     ns["Real"] = TypeDesc("real")
     ns["IntList"] = TypeDesc("list", TypeDesc("int", None, None), None)  # list of ints of ANY length (open list)
     ns["BytesList"] = TypeDesc("byteslist")   # list of octet strings of ANY length (open list)
+    ns["PairList"] = TypeDesc("pairlist")     # list of (int, int) tuples of ANY length (open list)
     ns["Chunks"] = TypeDesc("chunks")         # deque of ANY number of bytearray chunks (open deque)
 
     @_b("IntRange")
